@@ -42,14 +42,17 @@ def live_case(spec, res):
     import time
     from vlib import live
     rnd = rng_for(spec['seed'], 'C19-live', spec['idx'])
-    nw = rnd.randint(3, 5)
+    nw = rnd.randint(4, 5)
     ws = []
     for i in range(nw):
-        ws.append({'name': 'w%d' % i, 'priority': rnd.choice([0, 1, 2, 5, 9]), 'np': rnd.choice([1, 2]),
+        ws.append({'name': 'w%d' % i, 'priority': rnd.choice([-7, 0, 1, 2, 5, 9]), 'np': rnd.choice([1, 2]),
                    'warmup': rnd.choice([0, 0, 1]), 'autostart': rnd.random() < .6})
     # at least one watcher that is started, with a warm-up pause, before a watcher that must not be started
     ws[0].update(priority=9, autostart=True, np=2, warmup=1)
     ws[1].update(priority=rnd.choice([0, 5]), autostart=False)
+    # a negative priority comes after the default one (whatever the names say)
+    ws[2].update(priority=-5, autostart=True)
+    ws[3].update(priority=0, autostart=True, warmup=1)
     d = live.Daemon('', strace=False)
     txt = d.header(check_delay=0.5)
     for w_ in ws:
@@ -96,9 +99,11 @@ def live_case(spec, res):
         for a, b in zip(started, started[1:]):
             ta = [t for t, _ in table.get(a['name'], []) if t is not None]
             tb = [t for t, _ in table.get(b['name'], []) if t is not None]
-            if a['priority'] > b['priority'] and ta and tb:
+            # judged where the earlier watcher pauses one second after each of its spawns: the order of two processes
+            # that come up within milliseconds of each other says nothing
+            if a['priority'] > b['priority'] and ta and tb and a['warmup'] >= 1:
                 res.obs['live_priority_pairs_judged'] += 1
-                if min(tb) < max(ta) - 0.05:
+                if min(tb) < max(ta) + 0.4:
                     res.violation('C19/live:lower-priority-watcher-started-first',
                                   'workers of %s (priority %d) came up at %s, those of %s (priority %d) at %s'
                                   % (a['name'], a['priority'], sorted(ta), b['name'], b['priority'], sorted(tb)))
